@@ -569,12 +569,16 @@ def INT(number):
 def SUMIFS(sum_args, *criteria):
     if len(criteria) % 2 != 0:
         return error.ERROR
-    range_and_preds = list(zip(criteria[::2], (utils.parse_criteria(criterion) for criterion in criteria[1::2])))
+    for criteria_range in criteria[::2]:
+        if isinstance(criteria_range, string_types):
+            return error.ERROR
+    # a range arrives from the host as rows of cells: walk it cell by cell
+    sum_args = utils.flatten(sum_args)
+    range_and_preds = list(zip((utils.flatten(r) for r in criteria[::2]),
+                               (utils.parse_criteria(criterion) for criterion in criteria[1::2])))
     # Validate criteria ranges
     sum_args_len = len(sum_args)
     for criteria_range,pred in range_and_preds:
-        if isinstance(criteria_range, string_types):
-            return error.ERROR
         if len(criteria_range) != sum_args_len:
             return error.VALUE
     b = 0
